@@ -234,6 +234,13 @@ class ListLit(tuple):
     or havoc'd, when it is converted to a SymList."""
 
 
+class SymMap2:
+    """dict keyed by pairs of ints: (present: Array(Int,Int->Bool), val: Array(Int,Int->Int))."""
+    def __init__(self, present, val):
+        self.present = present
+        self.val = val
+
+
 class RangeV:
     def __init__(self, lo, hi, step=1):
         self.lo, self.hi, self.step = lo, hi, step
